@@ -2,7 +2,7 @@
 from . import vise, core
 PID = 'C20'
 MC = ['C20_GracefulEndUnwinds', 'C20_ClientFlagsKept', 'C20_RestartAtRoot', 'C06_TerminateBlocks']
-TR = ['C20_Outcome', 'C20_GracefulEnd', 'C20_Blocked', 'C20_Restart']
+TR = ['C20_Outcome', 'C20_GracefulEnd', 'C20_Blocked', 'C20_Restart', 'C20_ExitValue']
 
 
 def run(tier):
